@@ -53,9 +53,10 @@ inductive AddRes where
   | skip | ok | closedErr | blocked
 deriving Repr, DecidableEq, Inhabited
 
+/-- one pass of the loop in `Add`: a closed queue reports the close error before looking at the length -/
 def addIter (s : State) (p : Bytes) : State × AddRes × Nat :=
-  if s.sendQueue.length < sendCap then ({ s with sendQueue := s.sendQueue ++ [p], pendingAdd := none }, .ok, 1)
-  else if s.closed then ({ s with pendingAdd := none }, .closedErr, 0)
+  if s.closed then ({ s with pendingAdd := none }, .closedErr, 0)
+  else if s.sendQueue.length < sendCap then ({ s with sendQueue := s.sendQueue ++ [p], pendingAdd := none }, .ok, 1)
   else ({ s with pendingAdd := some p }, .blocked, 0)
 
 /-- `Add`; the Nat counts `hasData` callbacks -/
